@@ -146,6 +146,10 @@ pub enum ExecError {
     Deadlock { parked: Vec<(usize, &'static str)> },
     /// a participant neither reached a hook nor finished: it blocks on something un-instrumented (machinery error)
     Stuck { sites: Vec<String> },
+    /// a participant blocked on something without a scheduling point (e.g. a lock acquisition that a change to
+    /// the code under test introduced) while the holder was parked; the execution was finished free-running and
+    /// is discarded: it is neither judged nor expanded (counted by `explore`)
+    Uninstrumented { sites: Vec<String> },
     Diverged(String),
 }
 
@@ -180,7 +184,7 @@ pub fn execute(bodies: Vec<Body>, prefix: &[usize], on_step: &mut dyn FnMut(usiz
     let result = loop {
         // quiescence: everybody parked or finished
         let mut g = inst.st.lock();
-        let deadline = Instant::now() + Duration::from_secs(10);
+        let deadline = Instant::now() + Duration::from_secs(4);
         let mut stuck = false;
         while g.iter().any(|p| matches!(p, P::Running | P::NotStarted)) {
             if self_timed_out(&inst, &mut g, deadline) {
@@ -258,6 +262,13 @@ pub fn execute(bodies: Vec<Body>, prefix: &[usize], on_step: &mut dyn FnMut(usiz
             inst.cv.wait_for(&mut g, Duration::from_millis(20));
         }
     }
+    let all_ended = inst.st.lock().iter().all(|p| matches!(p, P::Finished | P::Absent));
+    let result = match result {
+        // everybody ended once the parked participants were let go: the blocking was on a lock held by a parked
+        // participant, acquired at a place that has no scheduling point
+        Err(ExecError::Stuck { sites }) if all_ended => Err(ExecError::Uninstrumented { sites }),
+        other => other,
+    };
     let stuck_threads = matches!(result, Err(ExecError::Stuck { .. }));
     for h in handles {
         if stuck_threads {
@@ -278,18 +289,23 @@ pub fn preemptions(points: &[Point]) -> usize {
     points.iter().filter(|p| p.running_still_enabled && p.enabled.first() != Some(&p.chosen)).count()
 }
 
+/// process-wide count of discarded executions (reported in the evidence by `Run::finish` callers)
+pub static DISCARDED: std::sync::atomic::AtomicU64 = std::sync::atomic::AtomicU64::new(0);
+
 pub struct ExploreStats {
     pub schedules: u64,
     pub steps: u64,
     pub max_preemptions_completed: usize,
     pub capped: bool,
     pub deadlocks: u64,
+    /// executions discarded because a participant blocked where there is no scheduling point
+    pub discarded: u64,
 }
 
 /// Iterative context bounding. `run_one(prefix)` executes one schedule and returns its points (it checks
 /// its own oracle and reports violations itself). Returns statistics. `budget` stops the walk (capped).
 pub fn explore(max_bound: usize, deadline: Instant, run_one: &mut dyn FnMut(&[usize], usize) -> Result<Vec<Point>, ExecError>) -> Result<ExploreStats, ExecError> {
-    let mut st = ExploreStats { schedules: 0, steps: 0, max_preemptions_completed: 0, capped: false, deadlocks: 0 };
+    let mut st = ExploreStats { schedules: 0, steps: 0, max_preemptions_completed: 0, capped: false, deadlocks: 0, discarded: 0 };
     // schedules are identified by their full choice vector; bound b explores exactly those with <= b preemptions.
     // To count each schedule once, explore bound b and skip schedules with < b preemptions (already seen) when b > 0.
     for bound in 0..=max_bound {
@@ -306,6 +322,14 @@ pub fn explore(max_bound: usize, deadline: Instant, run_one: &mut dyn FnMut(&[us
                 Err(ExecError::Deadlock { .. }) => {
                     st.deadlocks += 1;
                     st.schedules += 1;
+                    continue;
+                }
+                Err(ExecError::Uninstrumented { sites }) => {
+                    st.discarded += 1;
+                    if st.discarded <= 3 {
+                        eprintln!("NOTE: schedule {prefix:?} discarded: a participant blocked where there is no scheduling point ({sites:?})");
+                    }
+                    DISCARDED.fetch_add(1, std::sync::atomic::Ordering::Relaxed);
                     continue;
                 }
                 Err(e) => return Err(e),
